@@ -723,7 +723,159 @@ def t_hoistattr1(fn):
     return _hoist_attr(fn, 1)
 
 
-KINDS = {'hoistattr0': t_hoistattr0, 'hoistattr1': t_hoistattr1, 'extract0': t_extract0, 'extract1': t_extract1, 'extract2': t_extract2, 'xtest0': t_xtest0, 'xtest1': t_xtest1, 'unpack': t_unpack,
+class _NestAnd(ast.NodeTransformer):
+    """`if a and b: X` (no else) -> `if a: if b: X`"""
+    n = 0
+
+    def visit_If(self, node):
+        self.generic_visit(node)
+        if not node.orelse and isinstance(node.test, ast.BoolOp) and isinstance(node.test.op, ast.And) and len(node.test.values) >= 2:
+            self.n += 1
+            first, rest = node.test.values[0], node.test.values[1:]
+            inner = ast.If(test=rest[0] if len(rest) == 1 else ast.BoolOp(op=ast.And(), values=rest), body=node.body, orelse=[])
+            return ast.copy_location(ast.If(test=first, body=[ast.copy_location(inner, node)], orelse=[]), node)
+        return node
+
+    def visit_Lambda(self, node):
+        return node
+
+
+def t_nestand(fn):
+    t = _NestAnd()
+    fn.body = [t.visit(s) for s in fn.body]
+    return t.n > 0
+
+
+class _JoinAnd(ast.NodeTransformer):
+    """`if a: if b: X` (no else on either, nothing else in the outer body) -> `if a and b: X`"""
+    n = 0
+
+    def visit_If(self, node):
+        self.generic_visit(node)
+        if not node.orelse and len(node.body) == 1 and isinstance(node.body[0], ast.If) and not node.body[0].orelse:
+            self.n += 1
+            inner = node.body[0]
+            return ast.copy_location(ast.If(test=ast.BoolOp(op=ast.And(), values=[node.test, inner.test]), body=inner.body, orelse=[]), node)
+        return node
+
+    def visit_Lambda(self, node):
+        return node
+
+
+def t_joinand(fn):
+    t = _JoinAnd()
+    fn.body = [t.visit(s) for s in fn.body]
+    return t.n > 0
+
+
+def t_boolret(fn):
+    """`if T: return True` / `return False` (and the negated / else forms) -> `return bool-valued T`;  only where T is a comparison /
+    not / and / or of comparisons (a plain truthiness test would change the returned value)"""
+    n = [0]
+
+    def boolish(e):
+        if isinstance(e, ast.Compare):
+            return True
+        if isinstance(e, ast.UnaryOp) and isinstance(e.op, ast.Not):
+            return True
+        if isinstance(e, ast.BoolOp):
+            return all(boolish(v) for v in e.values)
+        return False
+
+    def const(st):
+        return st.value.value if isinstance(st, ast.Return) and isinstance(st.value, ast.Constant) and isinstance(st.value.value, bool) else None
+
+    def rec(body):
+        out, i = [], 0
+        while i < len(body):
+            a = body[i]
+            b = body[i + 1] if i + 1 < len(body) else None
+            for fld in ('body', 'orelse', 'finalbody'):
+                blk = getattr(a, fld, None)
+                if isinstance(blk, list) and blk and isinstance(blk[0], ast.stmt) and not isinstance(a, (ast.FunctionDef, ast.AsyncFunctionDef, ast.ClassDef)):
+                    setattr(a, fld, rec(blk))
+            for h in getattr(a, 'handlers', []) or []:
+                h.body = rec(h.body)
+            if isinstance(a, ast.If) and len(a.body) == 1 and const(a.body[0]) is not None and boolish(a.test):
+                v1 = const(a.body[0])
+                v2 = const(a.orelse[0]) if len(a.orelse) == 1 else (const(b) if not a.orelse and b is not None else None)
+                if v2 is not None and v1 != v2:
+                    e = a.test if v1 else ast.UnaryOp(op=ast.Not(), operand=a.test)
+                    out.append(ast.copy_location(ast.Return(value=e), a))
+                    n[0] += 1
+                    i += 1 if a.orelse else 2
+                    continue
+            out.append(a)
+            i += 1
+        return out
+    fn.body = rec(fn.body)
+    return n[0] > 0
+
+
+def t_tokw(fn):
+    """positional arguments of calls to methods of the own class / functions of the own module become keyword arguments
+    (from the second argument on; only where the callee is unambiguous and has plain positional parameters)"""
+    sigs = getattr(fn, '_module_sigs', None)
+    if not sigs:
+        return False
+    n = [0]
+
+    class T(ast.NodeTransformer):
+        def visit_Call(self, node):
+            self.generic_visit(node)
+            f = node.func
+            name, method = None, False
+            if isinstance(f, ast.Name):
+                name = f.id
+            elif isinstance(f, ast.Attribute) and isinstance(f.value, ast.Name) and f.value.id == 'self':
+                name, method = f.attr, True
+            params = sigs.get((name, method))
+            if not params or len(node.args) < 2 or any(isinstance(a, ast.Starred) for a in node.args) or len(node.args) > len(params):
+                return node
+            if any(k.arg is None for k in node.keywords):
+                return node
+            keep, move = node.args[:1], node.args[1:]
+            node.keywords = [ast.keyword(arg=p, value=a) for p, a in zip(params[1:], move)] + node.keywords
+            node.args = keep
+            n[0] += 1
+            return node
+
+        def visit_Lambda(self, node):
+            return node
+    fn.body = [T().visit(s) for s in fn.body]
+    return n[0] > 0
+
+
+def t_constname(fn):
+    """integer literals >= 2 of the function (not subscripts / slices) get module level names"""
+    consts = {}
+
+    class T(ast.NodeTransformer):
+        def visit_Subscript(self, node):
+            node.value = self.visit(node.value)
+            return node
+
+        def visit_Constant(self, node):
+            if isinstance(node.value, int) and not isinstance(node.value, bool) and node.value >= 2:
+                nm = '_K_%d' % node.value
+                consts[nm] = node.value
+                return ast.copy_location(ast.Name(id=nm, ctx=ast.Load()), node)
+            return node
+
+        def visit_JoinedStr(self, node):
+            return node
+
+        def visit_Lambda(self, node):
+            return node
+    start = 1 if fn.body and isinstance(fn.body[0], ast.Expr) and isinstance(fn.body[0].value, ast.Constant) else 0
+    fn.body = fn.body[:start] + [T().visit(s) for s in fn.body[start:]]
+    if not consts:
+        return False
+    fn._module_consts = consts
+    return True
+
+
+KINDS = {'nestand': t_nestand, 'joinand': t_joinand, 'boolret': t_boolret, 'tokw': t_tokw, 'constname': t_constname, 'hoistattr0': t_hoistattr0, 'hoistattr1': t_hoistattr1, 'extract0': t_extract0, 'extract1': t_extract1, 'extract2': t_extract2, 'xtest0': t_xtest0, 'xtest1': t_xtest1, 'unpack': t_unpack,
          'plain': t_plain, 'rename': t_rename, 'swap': t_swap, 'flip': t_flip, 'alias': t_alias, 'early': t_early, 'demorgan': t_demorgan,
          'comp2loop': t_comp2loop, 'forunpack': t_forunpack, 'ifexp': t_ifexp, 'hoist': t_hoist}
 
@@ -767,8 +919,34 @@ def _variant(root, qn, kind):
     if len(found) < k:
         return None
     fn = found[k - 1]
+    # signatures of the functions / methods a call can be resolved to without types: module level functions and methods of the
+    # class the function belongs to (plain positional parameters only)
+    sigs = {}
+    def plain(f):
+        a = f.args
+        return not (a.vararg or a.kwarg or a.posonlyargs or f.decorator_list)
+    for st in tree.body:
+        if isinstance(st, ast.FunctionDef) and plain(st):
+            sigs[(st.name, False)] = [x.arg for x in st.args.args]
+        elif isinstance(st, ast.ClassDef) and len(parts) >= 2 and st.name == parts[-2]:
+            for m in st.body:
+                if isinstance(m, ast.FunctionDef) and plain(m) and m.args.args and m.args.args[0].arg == 'self':
+                    sigs[(m.name, True)] = [x.arg for x in m.args.args[1:]]
+    # a name defined more than once at module level is ambiguous
+    counts = {}
+    for st in ast.walk(tree):
+        if isinstance(st, ast.FunctionDef):
+            counts[st.name] = counts.get(st.name, 0) + 1
+    fn._module_sigs = {k_: v for k_, v in sigs.items() if counts.get(k_[0], 0) == 1}
     if not KINDS[kind](fn):
         return None
+    for nm, val in sorted(getattr(fn, '_module_consts', {}).items()):
+        if not any(isinstance(st, ast.Assign) and any(isinstance(t, ast.Name) and t.id == nm for t in st.targets) for st in tree.body):
+            k0 = 0
+            while k0 < len(tree.body) and (isinstance(tree.body[k0], (ast.Import, ast.ImportFrom)) or
+                                           (isinstance(tree.body[k0], ast.Expr) and isinstance(tree.body[k0].value, ast.Constant))):
+                k0 += 1
+            tree.body.insert(k0, ast.Assign(targets=[ast.Name(id=nm, ctx=ast.Store())], value=ast.Constant(value=val)))
     for h in getattr(fn, '_siblings', []):
         ast.copy_location(h, fn)
         fn._container.insert(fn._container.index(fn) + 1, h)
